@@ -56,6 +56,7 @@ type World struct {
 	HTTP  *httpServer
 	Conns []*WConn
 	Opts  *Options
+	exited bool
 }
 
 var worldSeq int
@@ -141,6 +142,10 @@ func NewWorld(dir string, o WOpts) (*World, error) {
 
 // Release frees the real OS resources of a world that is abandoned without Exit.
 func (w *World) Release() {
+	if w.exited {
+		vos.CloseLeaked()
+		return
+	}
 	if w.N.tcpListener != nil {
 		w.N.tcpListener.Close()
 	}
@@ -184,6 +189,14 @@ type WConn struct {
 	Frames []Frame // every frame received so far (in order)
 	seen   int     // frames already handed out by Next/Take
 	Closed bool
+	marks  []wmark // (cumulative bytes written by the server, virtual time of that write)
+	wtotal int
+	rtotal int // bytes consumed by parse
+}
+
+type wmark struct {
+	upto int
+	at   int64
 }
 
 var connSeq int
@@ -195,6 +208,10 @@ func (w *World) Dial(name string) *WConn {
 	n := w.N
 	vrt.GoNamed("conn-"+name, func() { n.tcpServer.Handle(s) })
 	wc := &WConn{C: c, Name: name, w: w}
+	s.OnWrite = func(p []byte) {
+		wc.wtotal += len(p)
+		wc.marks = append(wc.marks, wmark{wc.wtotal, vrt.Now()})
+	}
 	w.Conns = append(w.Conns, wc)
 	c.Write([]byte("  V2"))
 	return wc
@@ -230,6 +247,14 @@ func (c *WConn) parse() {
 			return
 		}
 		f := Frame{Type: int32(binary.BigEndian.Uint32(c.buf[4:8])), Data: append([]byte(nil), c.buf[8:4+sz]...), At: vrt.Now()}
+		// the frame arrived when the server wrote its last byte
+		c.rtotal += 4 + sz
+		for len(c.marks) > 0 && c.marks[0].upto < c.rtotal {
+			c.marks = c.marks[1:]
+		}
+		if len(c.marks) > 0 {
+			f.At = c.marks[0].at
+		}
 		if f.Type == frameTypeMessage && len(f.Data) >= 26 {
 			f.TS = int64(binary.BigEndian.Uint64(f.Data[:8]))
 			f.Attempts = int(binary.BigEndian.Uint16(f.Data[8:10]))
